@@ -10,50 +10,51 @@ CLAIMED = {
    text="Bounded model checking of the real sample() code (Kani->CBMC->SAT): for each family x {f32,f64} the parameters and every RNG word are free bit-vectors; "
         "the solver shows no assertion (support, NaN, infinity, Rust panic) can fail within the stated word budget, or returns a concrete stream that is replayed natively. "
         "Rare-word events (draw == 0, 1, max) are ordinary solver values, which is what sampling cannot reach.",
-   design="§7 C03", technique="Kani/CBMC bounded model checking of the real samplers over symbolic parameters and RNG words; libm by contract stubs; native replay of counterexamples"),
+   design="§0.4, §7 C03", technique="Kani/CBMC bounded model checking of the real samplers over symbolic parameters and RNG words; libm by contract stubs; native replay of counterexamples"),
  "C04": dict(
    text="Per constructor, all argument bit patterns (NaN payloads, +-0, subnormals, +-inf, integer extremes) are symbolic; the solver proves Ok <=> no documented error condition holds, "
         "the returned variant's documented condition is true, accessors return the arguments, and no panic is reachable. Documentation-silent regions are assumed away and listed per harness.",
-   design="§7 C04", technique="Kani/CBMC bounded model checking of the real constructors against documented-domain predicates over all argument bit patterns"),
+   design="§0.4, §7 C04", technique="Kani/CBMC bounded model checking of the real constructors against documented-domain predicates over all argument bit patterns"),
  "C06": dict(
    text="Tables: every ziggurat equation (monotonicity, end points, density to 1e-14 via exp in QF_NRAT, equal areas and base strip + tail to 1e-8) is an SMT query over the constants parsed from the current tree, exhaustive over 4x257 entries (cvc5, cross-checked with z3 where polynomial). "
         "Algorithm: the real utils::ziggurat + StandardNormal/Exp1 closures are model-checked per path (rectangle / wedge / tail) over all words: layer index, rectangle bounds, tail beyond R with the sign of the uniform, word counts.",
-   design="§7 C06", technique="SMT (cvc5 QF_NRAT / z3) over the table constants, exhaustive; Kani/CBMC bounded model checking of the ziggurat algorithm per path"),
+   design="§0.4, §7 C06", technique="SMT (cvc5 QF_NRAT / z3) over the table constants, exhaustive; Kani/CBMC bounded model checking of the ziggurat algorithm per path"),
  "C09": dict(
    text="One inductive step from an arbitrary valid state (subtotal heap of an arbitrary weight list, built directly) through the real new/push/pop/update, with all weights and the index symbolic: "
         "post-state equals the subtotal heap of the updated list field-wise (and == new(list) through the real PartialEq), accessors agree, errors are exactly InvalidWeight/Overflow as documented and leave the state unchanged, no panic. By induction this covers histories of any length for lengths up to the bound.",
-   design="§7 C09, §6.1", technique="Kani/CBMC bounded model checking: one inductive step of each operation from an arbitrary valid state, lengths <= 8"),
+   design="§0.4, §6.1, §7 C09", technique="Kani/CBMC bounded model checking: one inductive step of each operation from an arbitrary valid state, lengths <= 8"),
  "C10": dict(
    text="Arbitrary valid state, symbolic RNG words, the real try_sample including rand's random_range: the returned index must own the target (that rand draws from the same words) in the post-order interval layout, so exactly w_i of the total targets map to i; zero-weight indices own no target; errors iff total is zero; no panic.",
-   design="§7 C10", technique="Kani/CBMC bounded model checking of try_sample against an interval specification, integer weights, lengths <= 7"),
+   design="§0.4, §7 C10", technique="Kani/CBMC bounded model checking of try_sample against an interval specification, integer weights, lengths <= 7"),
 }
 CLAIMED.update({
  "C02": dict(
    text="Partial, solver-decided necessary conditions of the pmf claim, where reflection / off-by-one / method-switch bugs live: Hypergeometric symmetry reductions map the reduced support onto the documented one (all K,n<=N in bounded and extreme ranges); Binomial method switch and p->1-p flip, BINV state r = q^n for every n (incl. n >= 2^31); StandardGeometric's exact word-interval law; Zipf's normalising constant on both sides of s = 1. The acceptance-probability parts (BTPE, PD, H2PE, rejection-inversion) are law statements outside the technique (level_note).",
-   design="§7 C02", technique="Kani/CBMC bounded model checking of constructor state and bit-level samplers; free logging stubs for the algebraic structure around libm calls",
+   design="§0.4, §7 C02", technique="Kani/CBMC bounded model checking of constructor state and bit-level samplers; free logging stubs for the algebraic structure around libm calls",
    note="NOT decided: that BINV/BTPE/PD/HIN/H2PE/rejection-inversion acceptance tests realise the pmf (probabilities through ln/exp/pow). "),
  "C05": dict(
    text="Partial: the one state-carrying loop that can be encoded is bounded by an unwinding assertion that the solver proves (BINV walk <= 112 steps for every first word, from concrete constructor states incl. a deliberately sticking one); every rejection loop in the C03/C12 harnesses is bounded through the RNG word budget with unwinding assertions ON, which proves each trial consumes >= 1 word and lists the words per trial. Mean acceptance rates are probabilities and are not decided.",
-   design="§7 C05", technique="Kani/CBMC unwinding assertions (proved loop bounds) + word-budget bounded rejection loops; counterexample rebuilt from the CBMC trace and replayed natively (hang detection)",
+   design="§0.4, §7 C05", technique="Kani/CBMC unwinding assertions (proved loop bounds) + word-budget bounded rejection loops; counterexample rebuilt from the CBMC trace and replayed natively (hang detection)",
    note="NOT decided: mean number of trials / acceptance rate not collapsing; BTPE step 5.1 and H2PE step 4.1 walks; HIN loop length. "),
  "C07": dict(
    text="For each location/scale family the sampler's algebra around its parameter-free standard quantity g (a libm result or a ziggurat draw) is checked for every parameter value: sample == loc + scale*g bit-for-bit, the libm arguments are the documented ones, the same number of words is consumed whatever the parameters, from_zscore(z) == mean + std_dev*z, precomputed reciprocals equal the documented transform (on concrete shapes). g ranges over a small value set supplied by free logging stubs (any value would do for pure algebra).",
-   design="§7 C07", technique="Kani/CBMC bounded model checking with free logging stubs for libm/ziggurat (uninterpreted standard draw); native replay evaluates the same assertion with the real libm",
+   design="§0.4, §7 C07", technique="Kani/CBMC bounded model checking with free logging stubs for libm/ziggurat (uninterpreted standard draw); native replay evaluates the same assertion with the real libm",
    note="g restricted to {0,-0,+-1,2,1/2,3/4,-3}; Gamma, InverseGaussian, SkewNormal, Triangular, Pert not covered. "),
  "C08": dict(
-   text="new() on every weight vector of a small length: documented error variants exactly; on Ok the alias table satisfies the mass identity odds[i] + sum_{alias[j]=i}(sum - odds[j]) == len*w_i (so the law is exactly w_i/sum and zero-weight indices carry no mass); weights() returns the vector; sample() == `column if threshold < odds[column] else alias[column]` with the real rand Uniform draws; float weights: error variants, no panic, no sentinel alias left where it can be yielded.",
-   design="§7 C08", technique="Kani/CBMC bounded model checking of the alias construction against the mass identity, lengths <= 3 (quick) / 4 (thorough)"),
+   text="new() on every weight vector of a small length: documented error variants exactly; on Ok the alias table satisfies the mass identity odds[i] + sum_{alias[j]=i}(sum - odds[j]) == len*w_i (so the law is exactly w_i/sum and zero-weight indices carry no mass); weights() returns the vector; sample() == `column if threshold < odds[column] else alias[column]` with the real rand Uniform draws; vectors longer than W::MAX and longer than the 32-element summation block are covered by dedicated harnesses; float weights are out of reach (level_note).",
+   design="§0.4, §7 C08", technique="Kani/CBMC bounded model checking of the alias construction against the mass identity, lengths <= 3 (quick) / 4 (thorough)",
+   note="NOT decided: float weight types (rand's Uniform::<F>::new_bounded loop cannot be bounded by the solver); lengths > 4 except the two dedicated harnesses. "),
  "C11": dict(
    text="Partial: Dirichlet::new accepts exactly the documented domain, picks stick-breaking iff all alpha <= 0.1, and its Beta chain is Beta(alpha_i, sum of later alphas) (the reversed cumulative sum index error the property describes) for every alpha vector of length 2..4; the stick-breaking sampler writes every output component (buffer pre-filled with NaN) with values in [0,1] (thorough tier, concrete alpha). Marginal/conditional Beta laws are law statements and are not decided.",
-   design="§7 C11", technique="Kani/CBMC bounded model checking of constructor structure (all alpha bit patterns, len <= 4) and of the stick-breaking sampler",
+   design="§0.4, §7 C11", technique="Kani/CBMC bounded model checking of constructor structure (all alpha bit patterns, len <= 4) and of the stick-breaking sampler",
    note="NOT decided: Beta marginals; sum-to-one within ulps; lengths 5..64; gamma path sampling. "),
  "C12": dict(
    text="Partial: for all four samplers and both float types: a trial consumes exactly 2 (3 for the ball) draws, the acceptance test is exactly decided in the regions |x|<=1/2 (must accept) and |x|>=3/4 (must reject), disc/ball return exactly the accepted candidate, circle/sphere first-trial outputs are NaN-free with the documented sign structure. Uniformity w.r.t. arc length/area is a law statement and is not decided.",
-   design="§7 C12", technique="Kani/CBMC bounded model checking over all candidate words (two trials), acceptance decided by regions",
+   design="§0.4, §7 C12", technique="Kani/CBMC bounded model checking over all candidate words (two trials), acceptance decided by regions",
    note="NOT decided: uniformity; |norm - 1| within ulps. "),
  "C14": dict(
-   text="Frame condition instead of self-composition: sample() is wrapped in a function contract modifies(rng) and CBMC's assigns-clause instrumentation checks every write in its call tree against {rng, locals}, for arbitrary parameter values and RNG state (loop-free samplers and UnitDisc). Supported by a scan of the pristine tree for any interior-mutability / static / unsafe site (reported in the evidence; a hit makes the check inconclusive, never a pass).",
-   design="§7 C14", technique="Kani function contracts (assigns-clause / frame checking by CBMC) on sample() wrappers",
+   text="Frame condition instead of self-composition: sample() is wrapped in a function contract modifies(rng) and CBMC's assigns-clause instrumentation checks every write in its call tree against {rng, locals}, for arbitrary parameter values and RNG state (loop-free samplers and UnitDisc); a failed assigns check is reported as VIOLATION (nothing to replay). WeightedTreeIndex::sample_iter agrees with repeated sample on every stream (u8, 3 weights). Supported by a scan of the pristine tree for any interior-mutability / static / unsafe site (reported in the evidence; a hit makes the check inconclusive, never a pass).",
+   design="§0.4, §7 C14", technique="Kani function contracts (assigns-clause / frame checking by CBMC) on sample() wrappers",
    note="Rejection-loop families with libm calls exhausted memory under the contract instrumentation and are not covered; clone/eq are derived impls (not checked). "),
 })
 NA = {
@@ -92,7 +93,7 @@ def main():
         ],
         "checks": checks,
         "not_applicable": [{"property_id": k, "reason": v} for k, v in sorted(NA.items()) if k not in CLAIMED],
-        "notes": "Exit codes: 0 pass, 1 VIOLATION (solver counterexample reproduced natively), 2 inconclusive (never counted as pass). known_findings.json lists genuine defects of the pinned tree by region.",
+        "notes": "Exit codes: 0 pass, 1 VIOLATION (solver counterexample reproduced natively, or a frame-condition failure), 2 inconclusive (never counted as pass). known_findings.json lists genuine defects of the pinned tree by region (open) and the two repaired ones (fixed). Thorough-tier harnesses marked best-effort that do not finish are reported as UNDECIDED and not counted. DESIGN.md section 0 describes the as-built machinery and which seeded changes each check catches.",
     }
     json.dump(m, open(os.path.join(V, "MANIFEST.json"), "w"), indent=1)
 
